@@ -8,7 +8,7 @@ namespace Cppcheck.Glob
 open Cppcheck.Wire
 
 /-- the explicit-stack loop of `matchglob` terminates and computes the recursive search `dfs`
-    (current code `fx = false` and repaired code `fx = true`, any case mode) -/
+    (code before the repair `fx = false` and current code `fx = true`, any case mode) -/
 theorem stack_eq_dfs (fx ci : Bool) (p n : Str) :
     ∃ k, ∀ fuel, k ≤ fuel → run fx ci fuel p n [] = some (dfs fx ci p n) := by
   obtain ⟨k, hk⟩ := run_spec fx ci p n []
@@ -19,36 +19,44 @@ theorem stack_eq_dfs (fx ci : Bool) (p n : Str) :
     rw [h0]; cases dfs fx ci p n <;> rfl
   exact run_mono_le fx ci p n [] _ k fuel hf hsome
 
-/-- whatever `matchglob` accepts is in the documented language -/
-theorem glob_sound (p n : Str) (h : matchglob p n = true) : Spec.Matches (cstr p) (cstr n) :=
+/-- THE GLOB THEOREM (current code, /repo ≥ 1cf3800): `matchglob` decides exactly the documented language —
+    `*` = any string, `?` = any single character — for every pattern and every name (as C strings) -/
+theorem glob_eq_spec (p n : Str) : matchglob p n = true ↔ Spec.Matches (cstr p) (cstr n) :=
+  ⟨fun h => Spec.matchesB_sound _ _ (dfs_sound fixApplied _ _ h),
+   fun hm => dfs_complete_fixed _ _ (Spec.matchesB_complete hm)⟩
+
+/-- … also for the algorithm written out with `fx = true` (what the one-line switch `fixApplied` selects) -/
+theorem glob_eq_spec_fixed (p n : Str) : matchglobFixed p n = true ↔ Spec.Matches (cstr p) (cstr n) :=
+  ⟨fun h => Spec.matchesB_sound _ _ (dfs_sound true _ _ h), fun hm => dfs_complete_fixed _ _ (Spec.matchesB_complete hm)⟩
+
+/-- the code before the repair accepted nothing outside the documented language … -/
+theorem glob_sound_pre (p n : Str) (h : matchglobPre p n = true) : Spec.Matches (cstr p) (cstr n) :=
   Spec.matchesB_sound _ _ (dfs_sound false _ _ h)
 
-/-- current code: exact on every pattern whose `*` are followed by a literal, the end, or only further `*` -/
+/-- … and was exact on every pattern whose `*` are followed by a literal, the end, or only further `*` -/
 theorem glob_eq_spec_partial (p n : Str) (h : starOk (cstr p) = true) :
-    matchglob p n = true ↔ Spec.Matches (cstr p) (cstr n) :=
-  ⟨glob_sound p n, fun hm => dfs_complete_partial _ _ h (Spec.matchesB_complete hm)⟩
+    matchglobPre p n = true ↔ Spec.Matches (cstr p) (cstr n) :=
+  ⟨glob_sound_pre p n, fun hm => dfs_complete_partial _ _ h (Spec.matchesB_complete hm)⟩
 
 example : starOk (cstr "null*Pointer".toList) = true ∧ starOk (cstr "*".toList) = true ∧
     starOk (cstr "a?c*".toList) = true ∧ starOk (cstr "x**".toList) = true := by decide
 
-/-- F8: the full statement is false of the current code — `a**b` is a valid pattern (`isValidGlobPattern`), the
-    documented language contains `axb`, `matchglob` rejects it; likewise `a*?` / `ax` -/
+/-- F8 (found by this check, repaired by /repo commit 1cf3800): the full statement was false of the code before the
+    repair — `a**b` is a valid pattern (`isValidGlobPattern`), the documented language contains `axb`, the old
+    `matchglob` rejected it; likewise `a*?` / `ax`.  The repaired code accepts both. -/
 theorem glob_starstar_counterexample :
-    (isValidGlobPattern "a**b".toList = true ∧ matchglob "a**b".toList "axb".toList = false ∧
+    (isValidGlobPattern "a**b".toList = true ∧ matchglobPre "a**b".toList "axb".toList = false ∧
       Spec.Matches (cstr "a**b".toList) (cstr "axb".toList)) ∧
-    (matchglob "a*?".toList "ax".toList = false ∧ Spec.Matches (cstr "a*?".toList) (cstr "ax".toList)) ∧
-    ¬ (∀ p n : Str, matchglob p n = true ↔ Spec.Matches (cstr p) (cstr n)) := by
+    (matchglobPre "a*?".toList "ax".toList = false ∧ Spec.Matches (cstr "a*?".toList) (cstr "ax".toList)) ∧
+    ¬ (∀ p n : Str, matchglobPre p n = true ↔ Spec.Matches (cstr p) (cstr n)) ∧
+    (matchglob "a**b".toList "axb".toList = true ∧ matchglob "a*?".toList "ax".toList = true) := by
   have h1 : Spec.Matches (cstr "a**b".toList) (cstr "axb".toList) := Spec.matchesB_sound _ _ (by decide)
   have h2 : Spec.Matches (cstr "a*?".toList) (cstr "ax".toList) := Spec.matchesB_sound _ _ (by decide)
-  refine ⟨⟨by decide, by decide, h1⟩, ⟨by decide, h2⟩, ?_⟩
+  refine ⟨⟨by decide, by decide, h1⟩, ⟨by decide, h2⟩, ?_, by decide⟩
   intro hall
   have := (hall "a**b".toList "axb".toList).2 h1
   revert this
   decide
-
-/-- the algorithm after /verif/proposed/C23-matchglob.diff is exact on every pattern -/
-theorem glob_eq_spec_fixed (p n : Str) : matchglobFixed p n = true ↔ Spec.Matches (cstr p) (cstr n) :=
-  ⟨fun h => Spec.matchesB_sound _ _ (dfs_sound true _ _ h), fun hm => dfs_complete_fixed _ _ (Spec.matchesB_complete hm)⟩
 
 end Cppcheck.Glob
 
@@ -67,16 +75,20 @@ example : supprExact
   decide
 example : supprExact { errorId := "memleak".toList, type := .block, lineBegin := 3, lineEnd := 9 } = true := by decide
 
-/-- F8 at the level of suppressions: `--suppress=null**Pointer` is accepted by `addSuppression` and never matches
-    `nullPointer`, although the documented rules say it does -/
-theorem isSuppressed_glob_counterexample :
+/-- with the repaired `matchglob` the exactness hypothesis only excludes unpaired begin/end markers -/
+theorem supprExact_eq (s : Suppr) : supprExact s = (s.type != .blockBegin && s.type != .blockEnd) := by
+  simp [supprExact, globExact, globFixed, fixApplied]
+
+/-- F8 at the level of suppressions, after the repair: `--suppress=null**Pointer` is accepted by `addSuppression`
+    and matches `nullPointer`, as the documented rules say (before the repair the result was `Checked`) -/
+theorem isSuppressed_starstar_regression :
     let s : Suppr := { errorId := "null**Pointer".toList }
     let m : Msg := { errorId := "nullPointer".toList, fileName := "a.c".toList, lineNumber := 3 }
     addSuppression [] s = (.ok, [s]) ∧
-    (∀ env, isSuppressed env s m = .checked) ∧ (∀ env, Spec.matchesB env s m = true) ∧ supprExact s = false := by
-  refine ⟨by decide, fun env => ?_, fun env => ?_, by decide⟩
+    (∀ env, isSuppressed env s m = .matched) ∧ (∀ env, Spec.matchesB env s m = true) := by
+  refine ⟨by decide, fun env => ?_, fun env => ?_⟩
   · have : isSuppressed ⟨fun _ _ => false, id⟩ { errorId := "null**Pointer".toList }
-        { errorId := "nullPointer".toList, fileName := "a.c".toList, lineNumber := 3 } = .checked := by decide
+        { errorId := "nullPointer".toList, fileName := "a.c".toList, lineNumber := 3 } = .matched := by decide
     exact this
   · have : Spec.matchesB ⟨fun _ _ => false, id⟩ { errorId := "null**Pointer".toList }
         { errorId := "nullPointer".toList, fileName := "a.c".toList, lineNumber := 3 } = true := by decide
@@ -129,8 +141,9 @@ theorem explB_iff (env : Env) (cfg : GCfg) (nomsg : List Suppr) (f : Finding) (h
       * its file type reports errors, it renders to a non-empty text and no active `nomsg` suppression matches it by
         the documented rules, or
       * (safety mode only) it is a suppressed critical error that no matching suppression names literally.
-    Hypotheses: distinct findings render to distinct texts (or `emitDuplicates`), and the `nomsg` patterns are ones
-    on which the current `matchglob` is exact. -/
+    Hypotheses: distinct findings render to distinct texts (or `emitDuplicates`), and no `nomsg` entry is an unpaired
+    begin/end marker (`supprExact`, see `supprExact_eq`; before the repair of `matchglob` it also excluded id / symbol
+    patterns with a `*` followed by `*` or `?`). -/
 theorem reported_iff_unsuppressed (env : Env) (cfg : GCfg) (nomsg nofail : List Suppr) (fs : List Finding)
     (hd : cfg.emitDuplicates = true ∨ TextInj fs) (hx : ∀ s ∈ nomsg, supprExact s = true) (f : Finding) :
     Reported (gate env cfg nomsg nofail fs).out f ↔
